@@ -7,7 +7,8 @@ import Avfs.Lemmas.BpSim
   Setting (`BpOK s root v a c`, Lemmas/BpSim.lean): `s` a well-formed heap; `v` the view of the base file system (user,
   umask, current directory); the base path "/a1/…/an" (n ≥ 1, ordinary names) is resolved by the base, without meeting a
   symbolic link, to the directory node `c`; the virtual current directory `bpW a v` — Getwd of the base translated by
-  FromBasePath, BasePathFS keeps none of its own — is an absolute path (`bpCwd_prefix_cex`: the corner excluded).
+  FromBasePath, BasePathFS keeps none of its own — is an absolute path whatever the current directory of the base is (`C10_cwd_abs`, after the repair
+  of Getwd; `C10_cwd_prefix_repaired`: the former corner).
   `bp<Call>`: the model of the wrapper's method (ToBasePath on every path parameter, the guards of the Go source, then
   the method of the base); `bpView a v c`: the MemFS view rooted at `c` with the user and umask of `v` and current
   directory `bpW a v` — "a file system whose root is the base directory".
@@ -100,7 +101,7 @@ theorem C10_chroot_sim_open (h : BpOK s root v a c) (p : Bytes) (hp : p ≠ []) 
 
 /-- Chdir: same outcome; afterwards the base view corresponds to the new view of the file system rooted at the base
     directory (BasePathFS keeps no current directory of its own: its Getwd is the base's, translated — `C10_getwd`),
-    and the setting holds again: the hypothesis on the virtual current directory is an invariant -/
+    and the setting holds again -/
 theorem C10_chroot_sim_chdir (h : BpOK s root v a c) (p : Bytes) :
     walkPath s v root (a ++ bpB a v p) = .viaLink ∨
     ((bpChdir (pathOf a) s v p).2 = (chdir s (bpView a v c) p).2 ∧
@@ -230,7 +231,6 @@ theorem pxBp : BpOK pxStore 0 exView [cTmp] 3 where
   anames := ⟨by decide, by decide⟩
   reach := ⟨0, by decide +kernel⟩
   isDir := get_of_isDirAt pxStore_tmpDir
-  cwdAbs := by rw [bpCwd_outside _ _ (by decide)]; rfl
 
 theorem pxBp_w : bpW [cTmp] exView = [SL] := bpCwd_outside _ _ (by decide)
 
@@ -282,7 +282,6 @@ theorem pxBpD : BpOK pxStore 0 admD [cTmp] 3 where
   anames := ⟨by decide, by decide⟩
   reach := ⟨0, by decide +kernel⟩
   isDir := get_of_isDirAt pxStore_tmpDir
-  cwdAbs := by rw [show bpCwd (pathOf [cTmp]) admD = bpW [cTmp] admD from rfl, admD_w]; rfl
 
 /-- a RELATIVE path: with the virtual current directory "/d", Stat("../g") through the wrapper = Stat("../g") on the
     file system rooted at /tmp with current directory "/d" = the file /tmp/g of the whole tree -/
@@ -368,12 +367,21 @@ theorem C10_symlink_escape_cex :
     stat wkStore (bpView [cA] admView 4) [SL, 108, SL, 103] .stat = (wkStore, .err .ENOENT) := by
   decide +kernel
 
-/-- the corner of the virtual current directory (`bpCwd_prefix_cex`): base "/tmp", current directory of the base
-    "/tmpfoo" — Getwd's prefix test is on strings — the relative path "x" is handed to the base as "/tmpfoo/x" -/
-theorem C10_cwd_prefix_cex :
+/-- the virtual current directory is an absolute path for EVERY current directory of the base (no hypothesis on it;
+    before the repair of Getwd this was a hypothesis of the simulation) -/
+theorem C10_cwd_abs (a : List Bytes) (ha : a ≠ []) (hn : ∀ x ∈ a, x ≠ [] ∧ ∀ y ∈ x, y ≠ SL) (v : View) :
+    isAbs .linux (bpCwd (pathOf a) v) = true := bpCwd_abs a ha hn v
+
+/-- REPAIRED (was the witness `C10_cwd_prefix_cex`): base "/tmp", current directory of the base "/tmpfoo". The
+    pre-repair Getwd tested the prefix on STRINGS, answered the relative path "foo", and the relative path "x" was handed
+    to the base as "/tmpfoo/x" — outside the base directory. Now (`inBase`) the virtual current directory is "/" and "x"
+    is handed to the base as "/tmp/x", inside the base. -/
+theorem C10_cwd_prefix_repaired :
+    bpCwd [SL, 116, 109, 112] { root := 0, cwd := [SL, 116, 109, 112, 102, 111, 111], uid := 0, gid := 0, admin := true, umask := 0 }
+      = [SL] ∧
     bpPath [SL, 116, 109, 112] { root := 0, cwd := [SL, 116, 109, 112, 102, 111, 111], uid := 0, gid := 0, admin := true, umask := 0 } [120]
-      = [SL, 116, 109, 112, 102, 111, 111, SL, 120] ∧
-    ¬ Within [SL, 116, 109, 112] [SL, 116, 109, 112, 102, 111, 111, SL, 120] :=
-  bpCwd_prefix_cex.2
+      = [SL, 116, 109, 112, SL, 120] ∧
+    Within [SL, 116, 109, 112] [SL, 116, 109, 112, SL, 120] :=
+  bpCwd_prefix_repaired
 
 end Avfs.FS
